@@ -7,6 +7,7 @@ use crate::refs::*;
 use crate::rt::{self, choice, flag, R};
 use crate::spec::{self, *};
 use crate::{ensure, must};
+use bc_components::DigestProvider;
 use bc_envelope::prelude::*;
 use std::collections::HashSet;
 
@@ -28,8 +29,9 @@ struct Setup { spec: Spec, e: Envelope, ds: Vec<D>, t: HashSet<D>, revealing: bo
 fn setup() -> R<Setup> {
     let cat = if rt::thorough() { spec::catalogue(9, false, false, true) } else { spec::catalogue(7, false, false, true) };
     let kvcat = spec::catalogue(5, true, false, false);
-    let which = choice(cat.len() + kvcat.len());
-    let s = if which < cat.len() { cat[which].clone() } else { kvcat[which - cat.len()].clone() };
+    let obscat = spec::catalogue(if rt::thorough() { 5 } else { 4 }, false, true, false); // shapes that already contain obscured elements anywhere
+    let which = choice(cat.len() + kvcat.len() + obscat.len());
+    let s = if which < cat.len() { cat[which].clone() } else if which < cat.len() + kvcat.len() { kvcat[which - cat.len()].clone() } else { obscat[which - cat.len() - kvcat.len()].clone() };
     let e = build(&s);
     let ds = distinct_digests(&e);
     let mut t: HashSet<D> = HashSet::new();
@@ -56,10 +58,29 @@ fn obscured_kind(how: usize) -> Kind { match how { 0 => Kind::Elided, 1 => Kind:
 /// being obscured already, is left as it is)
 fn outside(_e: &Envelope, _exp: &[(Vec<usize>, Option<bool>)], _how: usize) -> bool { false }
 
-fn run_obscure(s: &Setup) -> Envelope {
+fn run_obscure(s: &Setup) -> R<Envelope> {
     let tset = to_set(&s.t.iter().cloned().collect::<Vec<_>>());
-    op(if s.revealing { "elide_revealing_set_with_action" } else { "elide_removing_set_with_action" });
-    if s.revealing { s.e.elide_revealing_set_with_action(&tset, &action(s.how)) } else { s.e.elide_removing_set_with_action(&tset, &action(s.how)) }
+    // the array / single-target / plain-elide entry points must agree with the set form
+    let providers: Vec<Digest> = s.t.iter().map(|d| Digest::from_data(*d)).collect();
+    let refs: Vec<&dyn DigestProvider> = providers.iter().map(|d| d as &dyn DigestProvider).collect();
+    let form = choice(if refs.len() == 1 { 3 } else { 2 });
+    op(match (s.revealing, form) { (true, 0) => "elide_revealing_set_with_action", (false, 0) => "elide_removing_set_with_action", (true, 1) => "elide_revealing_array_with_action", (false, 1) => "elide_removing_array_with_action", (true, _) => "elide_revealing_target_with_action", (false, _) => "elide_removing_target_with_action" });
+    let act = action(s.how);
+    let r = match (s.revealing, form) {
+        (true, 0) => s.e.elide_revealing_set_with_action(&tset, &act), (false, 0) => s.e.elide_removing_set_with_action(&tset, &act),
+        (true, 1) => s.e.elide_revealing_array_with_action(&refs, &act), (false, 1) => s.e.elide_removing_array_with_action(&refs, &act),
+        (true, _) => s.e.elide_revealing_target_with_action(refs[0], &act), (false, _) => s.e.elide_removing_target_with_action(refs[0], &act),
+    };
+    if s.how == 0 {
+        // the forms without an action are the Elide action
+        let plain = match (s.revealing, form) {
+            (true, 0) => s.e.elide_revealing_set(&tset), (false, 0) => s.e.elide_removing_set(&tset),
+            (true, 1) => s.e.elide_revealing_array(&refs), (false, 1) => s.e.elide_removing_array(&refs),
+            (true, _) => s.e.elide_revealing_target(refs[0]), (false, _) => s.e.elide_removing_target(refs[0]),
+        };
+        ensure!(bytes(&plain) == bytes(&r), "elide_* without action differs from the Elide action", "form {}", form);
+    }
+    Ok(r)
 }
 
 fn c02_targets() -> R {
@@ -67,7 +88,7 @@ fn c02_targets() -> R {
     let exp = expected_elision(&s.e, &s.t, s.revealing);
     rt::assume(!outside(&s.e, &exp, s.how))?;
     let before = bytes(&s.e);
-    let r = run_obscure(&s);
+    let r = run_obscure(&s)?;
     ensure!(bytes(&s.e) == before, "obscuring altered its receiver", "");
     ensure!(dg(&r) == dg(&s.e), "root digest changed by obscuring", "{}", s.spec.show());
     let po = positions(&s.e);
@@ -155,7 +176,7 @@ fn c03_targets() -> R {
     let s = setup()?;
     let exp = expected_elision(&s.e, &s.t, s.revealing);
     rt::assume(!outside(&s.e, &exp, s.how))?;
-    let r = run_obscure(&s);
+    let r = run_obscure(&s)?;
     let po = positions(&s.e);
     let pr = positions(&r);
     let mut expected_paths = 0;
@@ -239,7 +260,7 @@ pub fn prop_c02() -> Prop {
         id: "C02",
         scenarios: vec![
             Scenario { name: "targets", f: c02_targets, thorough_only: false,
-                bounds: "every shape of <=7 elements (quick) / <=9 (thorough) + 16 larger hand-written shapes (incl. already obscured children, repeated content, node-subject-node) + shapes with known values <=5 x target set = every subset of the shape's distinct element digests when it has <=7 (9) of them, else every set of <=2 (3) digests, optionally plus an absent digest x {removing, revealing} x {Elide, Encrypt, Compress} x every digest order.",
+                bounds: "every shape of <=7 elements (quick) / <=9 (thorough) + 16 larger hand-written shapes (incl. already obscured children, repeated content, node-subject-node) + shapes with known values <=5 + every shape of <=4 (5) elements that already contains elided / encrypted / compressed elements x set / array / single-target entry points (with and without action) x target set = every subset of the shape's distinct element digests when it has <=7 (9) of them, else every set of <=2 (3) digests, optionally plus an absent digest x {removing, revealing} x {Elide, Encrypt, Compress} x every digest order.",
                 api: API },
             Scenario { name: "two_pass", f: c02_two_pass, thorough_only: false,
                 bounds: "every shape of <=5 elements + 4 nested shapes (quick) / <=7 + 16 larger shapes (thorough) x first pass: any single position obscured with any action x second pass over the result: every target set of <=2 digests x {removing, revealing} x 3 actions x every digest order",
